@@ -339,12 +339,12 @@ PROPS = {
     ),
     "C14": dict(
         tables=[],
-        audit_modules=["RodbusModel.Audit.C14"],
-        required_theorems=["Rodbus.C14.kth_delay", "Rodbus.C14.kth_delay_created", "Rodbus.C14.kth_delay_after_reset",
+        audit_modules=["RodbusModel.Audit.C14", "RodbusModel.Audit.C14Serial"],
+        required_theorems=["Rodbus.C14Serial.run_eq_spec", "Rodbus.C14Serial.announced_delays_conform", "Rodbus.C14Serial.restart_after_disable", "Rodbus.C14Serial.restart_after_port_loss", "Rodbus.C14Serial.no_open_while_disabled", "Rodbus.C14Serial.shutdown_final", "Rodbus.C14.kth_delay", "Rodbus.C14.kth_delay_created", "Rodbus.C14.kth_delay_after_reset",
                            "Rodbus.C14.disconnect_is_min", "Rodbus.C14.no_overflow", "Rodbus.C14.delay_le_max"],
         suites=[dict(gen="retry", n=(4000, 300000),
                      exhaustive="11x11 lattice of special (min,max) durations incl. 0, Duration::MAX, MAX/2, MAX/2+1"),
-                dict(gen="life", n=(20, 1200), jobs=16), dict(gen="slife", n=(8, 300), jobs=8), dict(gen="pty_cli", n=(10, 200), jobs=16)],
+                dict(gen="life", n=(20, 1200), jobs=16), dict(gen="slife", n=(8, 300), jobs=8), dict(gen="pty_cli", n=(10, 200), jobs=16), dict(gen="sport", n=(60, 400), jobs=16)],
         extra_oracle=lambda c, i: life_oracle(c, i) if c.startswith("life ") else None,
         level_text="Proof: kth_delay (by induction on the call sequence, for all (min,max) with max representable and all k: the k-th "
                    "consecutive after_failed_connect since creation/reset returns min*2^(k-1) capped at max), disconnect_is_min, "
